@@ -137,3 +137,77 @@ func H08a_twin() {
 		vAssert(false, "H08a_twin.reach: reachable")
 	}
 }
+
+// H08e: restart, then insert, then restart again. A tree of L leaves (1..leaves; one symbolic ref per leaf, so
+// also leaf counts that are not a power of two) is persisted and loaded into a fresh tree; one more symbolic ref
+// is inserted at a symbolic clock (any existing page or the next one); Root() and ZeroTo(q) of the loaded tree
+// equal what the set implies for every query clock, and so do those of a third tree loaded from what was persisted.
+func H08e() {
+	leafSize := uint32(2)
+	L := vLen(1, vParam("leaves", 4))
+	hb := vParam("hashbytes", 1)
+	tr := New(NewXor(), leafSize).(*tree)
+	store := map[uint32][]byte{}
+	persist := func(t *tree) {
+		dirty, _ := t.Updates()
+		t.ResetUpdates()
+		for key, data := range dirty {
+			store[key] = data
+		}
+	}
+	var refs []hash.SHA256Hash
+	var clocks []uint32
+	for i := 0; i < L; i++ {
+		r := vHash(hb)
+		c := uint32(i) * leafSize
+		tr.Insert(r, c)
+		persist(tr)
+		refs = append(refs, r)
+		clocks = append(clocks, c)
+	}
+	if L == 3 {
+		vCover("three-leaves")
+	}
+	// restart
+	tr2 := New(NewXor(), leafSize).(*tree)
+	vAssert(tr2.Load(store) == nil, "H08e.load_ok: Load() of persisted leaves failed")
+	// one more transaction
+	r := vHash(hb)
+	c := uint32(vConc(vRange(0, int(uint32(L)*leafSize))))
+	tr2.Insert(r, c)
+	persist(tr2)
+	refs = append(refs, r)
+	clocks = append(clocks, c)
+	if c/leafSize == uint32(L)-1 {
+		vCover("insert-on-last-page")
+	}
+	var all hash.SHA256Hash
+	for i := range refs {
+		xorInto(&all, refs[i])
+	}
+	vAssert(hash.SHA256Hash(*tr2.Root().(*Xor)) == all, "H08e.root_after_restart_insert: Root() after restart + insert differs from the XOR of all refs")
+	q := uint32(vRange(0, int(uint32(L)*leafSize)+1))
+	checkZeroTo(tr2, "H08e", q, leafSize, refs, clocks)
+	// second restart: what was persisted is consistent too
+	tr3 := New(NewXor(), leafSize).(*tree)
+	vAssert(tr3.Load(store) == nil, "H08e.load2_ok: second Load() failed")
+	vAssert(hash.SHA256Hash(*tr3.Root().(*Xor)) == all, "H08e.root_after_second_restart: persisted leaves do not add up to the XOR of all refs")
+	checkZeroTo(tr3, "H08e.restart2", q, leafSize, refs, clocks)
+}
+
+func H08e_twin() {
+	tr := New(NewXor(), 2).(*tree)
+	store := map[uint32][]byte{}
+	for i := 0; i < 3; i++ {
+		tr.Insert(vHash(1), uint32(2*i))
+		dirty, _ := tr.Updates()
+		tr.ResetUpdates()
+		for k, d := range dirty {
+			store[k] = d
+		}
+	}
+	tr2 := New(NewXor(), 2).(*tree)
+	if tr2.Load(store) == nil && len(store) == 3 {
+		vAssert(false, "H08e_twin.reach: reachable")
+	}
+}
